@@ -6,7 +6,10 @@
 (*   MC_Server_tcp_live  liveness (no VIEW, no constraint)                     *)
 (*   MC_Server_pc        PacketConn/UDP loop, 3 packets; MC_Server_pc_live     *)
 (*   MC_Server_twice     two start calls, two shutdown calls on one listener   *)
-(*   MC_Server_reseq     restart after the shutdown completed (fresh listener) *)
+(*                       (only StartTwiceErrors / ShutdownNotStartedErrors /   *)
+(*                       lock discipline: a restart during shutdown is possible)*)
+(*   MC_Server_reseq     restart only after every call returned (SeqRestart),  *)
+(*                       optionally on a fresh listener: all properties hold   *)
 (*   MC_Server_restart   second start while a shutdown is in progress:         *)
 (*                       EXPECTED to violate GracefulReturn / NoCrash /        *)
 (*                       ShutdownTerminates (suspected defect, DESIGN section 7)*)
